@@ -320,6 +320,9 @@ def main():
                 sample=dict(N=N, kinds=kindof, history=hist))
         ck.traces_validated += 1
 
+    # ------------------- recorded traces of library routines (code -> spec)
+    library_traces(ck, qr, numpy)
+
     ck.assume("TLC bound: 3 objects (2 usable as context operators), nesting "
               "<= 2(3), histories <= 9(12) steps; replayed behaviours up to "
               "15 steps, nesting <= 3")
@@ -415,3 +418,111 @@ def numeric_clauses(numpy, qr, objs, o, got, st, Smat, ref_data, cms):
                 return ("superoperator-action-invariant",
                         "%s.apply(%s) inside differs from outside" % (o, p))
     return None
+
+
+def library_traces(ck, qr, numpy):
+    """Public builder / calculator calls (harness/registry.py) made outside
+    and inside basis contexts, recorded by the BasisTracer and validated by
+    TLC against BasisTrace: every primitive transition of the manager must be
+    one the specification allows, the registry of every level that is left
+    must be the specified one, and every call must hand the bookkeeping back
+    as it found it."""
+    from harness.tracer import BasisTracer
+    from harness import registry as R
+    reg = R.build_registry()
+    names = sorted(reg)
+    tr = BasisTracer()
+    tr.install()
+    traces, labels = [], []
+    rng = ck.rng
+    H3 = qr.Hamiltonian(data=numpy.array([[0.0, 0.2, 0.0], [0.2, 1.0, 0.1],
+                                          [0.0, 0.1, 1.5]]))
+    try:
+        progs = []
+        # inside the 3x3 context only calls whose managed objects are 3x3
+        # (objects of another dimension cannot live in that context)
+        inctx = [n for n in names if n not in ("aggregate_build_mult2",
+                                               "molecule_hamiltonian")]
+        for name in names:
+            progs.append([("call", name)])
+        for name in inctx:
+            progs.append([("ctx", [("call", name)])])
+        for k in range(60 if ck.thorough else 15):
+            prog = []
+            for j in range(rng.randint(1, 4)):
+                c = ("call", rng.choice(inctx))
+                x = rng.random()
+                if x < 0.4:
+                    prog.append(("ctx", [c]))
+                elif x < 0.55:
+                    prog.append(("ctx", [("ctx", [c]), c]))
+                elif x < 0.7:
+                    prog.append(("ctxraise", [c]))
+                else:
+                    prog.append(c)
+            progs.append(prog)
+
+        class Boom(Exception):
+            pass
+
+        def run(ops):
+            for op in ops:
+                if op[0] == "call":
+                    try:
+                        with qr.energy_units("1/cm"):
+                            tr.lib_call(op[1], reg[op[1]])
+                    except Boom:
+                        raise
+                    except Exception:
+                        pass     # e.g. routines that refuse to run in a context
+                elif op[0] == "ctx":
+                    with qr.eigenbasis_of(H3):
+                        run(op[1])
+                elif op[0] == "ctxraise":
+                    try:
+                        with qr.eigenbasis_of(H3):
+                            run(op[1])
+                            raise Boom()
+                    except Boom:
+                        pass
+        for prog in progs:
+            tr.take()
+            run(prog)
+            over = tr.overflow
+            ev = tr.take()
+            man = qr.Manager()
+            if len(man.basis_stack) != 1:
+                ck.violation("bookkeeping-restored", "library:" + str(prog)[:60],
+                             dict(program=str(prog), stack=list(man.basis_stack)),
+                             dict(program=str(prog)))
+                _reset_manager(man)
+            if over or not ev:
+                continue
+            traces.append(ev)
+            labels.append(prog)
+            ck.case("library-trace", str(prog), nontrivial=len(ev) > 2,
+                    sample=dict(program=str(prog)[:200], events=len(ev)))
+    finally:
+        tr.uninstall()
+    rej = ck.validate_traces("BasisTrace", "BasisTrace.cfg", traces, workers=8)
+    if rej:
+        t = traces[rej["tid"] - 1]
+        prog = labels[rej["tid"] - 1]
+        ev = t[min(rej["l"], len(t)) - 1]
+        libs = [e["name"] for e in t[:rej["l"]] if e["ev"] == "lib_begin"]
+        ck.violation("library-" + str(rej["violated"]),
+                     "trace:%s:%s" % (rej["violated"],
+                                      libs[-1] if libs else "-"),
+                     dict(program=str(prog)[:300], event_index=rej["l"],
+                          event=ev, state=rej["state"][:600]),
+                     dict(program=str(prog)))
+    # negative control of the binding: an exit that does not restore the
+    # depth must be rejected
+    bad = [[dict(ev="enter", obj="o0", oldtag=0, prot=False, tag=0, depth=1,
+                 ntrans=1, flag=True),
+            dict(ev="exit", exc=False, moved=[], depth=1, ntrans=1,
+                 flag=True)]]
+    n0 = ck.traces_validated
+    if not ck.validate_traces("BasisTrace", "BasisTrace.cfg", bad):
+        raise MachineryFailure("corrupted basis trace accepted")
+    ck.traces_validated = n0
